@@ -42,6 +42,20 @@ CHECKS = {
   "cancelled request. Held on the feasible orderings observed (count and interleaving ids in evidence).",
   "orderings reachable at the ~25 hook points only; a scripted FlushOp cancels only requests it is working on; budgets are wall-clock but never a verdict (infeasible != violation)",
   "DESIGN.md §5 C07"),
+ "C08": ("srvlab", "exploration",
+  "runtime monitor with blocking injected inside the scripted implementation; offline order checker over the invocation log and the wire for shared-tag groups",
+  "Every non-empty subset of 6 outstanding requests is held inside the implementation (issued before or after the others, Maxpend 0/1/4, with and without schedule perturbation) while the remaining "
+  "requests and one on a second connection must be answered; shared-tag groups of 2..8 are checked for one-at-a-time execution in arrival order and in-order replies by holding each member in turn. "
+  "A reply that arrives only after the blockers were released is the witness. Held on the subsets/groups run.",
+  "bounded progress with a 15 s watchdog that is never itself the verdict; Tversion excepted",
+  "DESIGN.md §5 C08"),
+ "C11": ("srvlab", "fault_enumeration",
+  "fault injection at enumerated disconnect points with goroutine-dump, FidDestroy/ConnClosed log and /proc/self/fd monitors",
+  "A victim connection running a generated history is cut after every prefix length with 0..4 requests held in the implementation (released afterwards, in every order over the run), by close, "
+  "reset, server-side write failure and mid-frame disconnect, Maxpend 0/4, next to a bystander connection. Monitors: one ConnClosed, every fid object destroyed exactly once, no library goroutine "
+  "created for the victim left (confirmed stable across two dumps), bystander undisturbed; with Ufs no descriptor into the tree remains. Held on the enumerated cut points.",
+  "goroutines attributed by creation after a baseline dump; leak = same library frame in two dumps after close.exit was observed",
+  "DESIGN.md §5 C11"),
  "C04": ("srvlab", "exploration",
   "online reference-model monitor: every request/reply of sequential histories judged against an executable fid-table model, plus invocation/FidDestroy log of a scripted implementation",
   "The real server framework runs in-process with a scripted implementation over scripted in-memory connections; each step of (a) all (fid state x request x outcome) transitions on fresh "
